@@ -344,14 +344,25 @@ func runC13(ctx *core.Ctx) {
 		}
 		// content: Fprintf(buf, "%d", now.Unix())
 		content := false
+		isNowUnix := func(v ssa.Value) bool {
+			u, ok := ssax.Strip(v).(*ssa.Call)
+			return ok && ssax.CalleeName(&u.Call) == "(time.Time).Unix" && u.Call.Args[0] == now
+		}
 		buf := ssax.Strip(w.Call.Args[1])
 		for _, fp := range g.Calls("fmt.Fprintf") {
 			if ssax.Strip(fp.Call.Args[0]) != buf || !isConstStr("%d")(fp.Call.Args[1]) {
 				continue
 			}
 			el := variadicElems(fp.Call.Args[2])
-			if len(el) == 1 {
-				if u, ok := ssax.Strip(el[0]).(*ssa.Call); ok && ssax.CalleeName(&u.Call) == "(time.Time).Unix" && u.Call.Args[0] == now {
+			if len(el) == 1 && isNowUnix(el[0]) {
+				content = true
+			}
+		}
+		// ... or a reader made directly from the decimal text of now.Unix()
+		if rc, ok := buf.(*ssa.Call); ok {
+			switch ssax.CalleeName(&rc.Call) {
+			case "strings.NewReader", "bytes.NewBufferString", "bytes.NewReader", "bytes.NewBuffer":
+				if x, isDec := decimalText(rc.Call.Args[0]); isDec && isNowUnix(x) {
 					content = true
 				}
 			}
